@@ -29,11 +29,11 @@ def expected : List EncWriteSite := [
   ⟨"writer.writeFileFooter:w.writer.Write(w.footer[:])", "enc", false⟩,
   ⟨"writer.writeFileFooter:encoder.Encode(&w.fileMetaData)", "plain", false⟩,
   ⟨"writer.writeFileFooter:w.writer.Write(w.footer[:])", "plain", false⟩,
-  ⟨"writer.writeRowGroup:w.writer.ReadFrom(io.NewSectionReader(cc.reader, cc.dictOffset, cc.dictLength))", "any", false⟩,
-  ⟨"writer.writeRowGroup:w.writer.ReadFrom(io.NewSectionReader(cc.reader, cc.dataOffset, cc.dataLength))", "any", false⟩,
+  ⟨"writer.writeRowGroup:w.writer.copySection(cc.reader)", "any", false⟩,
+  ⟨"writer.writeRowGroup:w.writer.copySection(cc.reader)", "any", false⟩,
   ⟨"writer.writeRowGroup:io.Copy:&w.writer(c.pageBuffer)", "any", false⟩,
   ⟨"writer.writeRowGroup:io.Copy:buf(bloom)", "any", false⟩,
-  ⟨"writer.writeRowGroup:w.writer.ReadFrom(bloom)", "any", false⟩,
+  ⟨"writer.writeRowGroup:w.writer.copySection(cc.reader)", "any", false⟩,
   ⟨"ColumnWriter.writeBloomFilter:w.Write(encHdr)", "enc", true⟩,
   ⟨"ColumnWriter.writeBloomFilter:w.Write(encBits)", "enc", true⟩,
   ⟨"ColumnWriter.writeBloomFilter:e.Encode(&h)", "plain", false⟩,
@@ -72,10 +72,8 @@ def transport : List String := [
   "writer.writeFileHeader:w.writer.WriteString(magic)",
   "writer.writeDeferredBloomFilters:w.writer.ReadFrom(bf.buf)",
   "writer.writeRowGroup:io.Copy:&w.writer(c.pageBuffer)",
-  "writer.writeRowGroup:w.writer.ReadFrom(io.NewSectionReader(cc.reader, cc.dictOffset, cc.dictLength))",
-  "writer.writeRowGroup:w.writer.ReadFrom(io.NewSectionReader(cc.reader, cc.dataOffset, cc.dataLength))",
-  "writer.writeRowGroup:io.Copy:buf(bloom)",
-  "writer.writeRowGroup:w.writer.ReadFrom(bloom)"
+  "writer.writeRowGroup:w.writer.copySection(cc.reader)",
+  "writer.writeRowGroup:io.Copy:buf(bloom)"
 ]
 
 theorem any_branch_sites_are_transport :
